@@ -499,6 +499,29 @@ def run(index, rep, tier):
                           "%s assigns `self.%s` without assigning the same attribute of self._split_distribution, which is the object that weights and counts the splits: an empty array that adopts the settings of the first sub-collection merged into it (use_tree_weights=False, say) shows the new setting on itself while its distribution keeps counting under the old one - trees added afterwards are weighted although the array says they are not, and the frequencies of the merged sample are wrong" % (m.qualname, w.attr))
         rep.floor("R06.10", "re-assignments of shared settings in TreeArray", 3, nst)
 
+    # ---- R06.11 a tree is refused before anything of it is counted
+    with rep.section("R06.11"):
+        rep.rule("R06.11", "a tree is refused before anything of it is counted: in TreeArray.add_tree the rooting validation (which raises for a tree of the other rooting state) dominates every statement that adds to the split distribution or to the per-tree lists - a refused tree leaves no trace in the counts")
+        at = index.function(TA + ".add_tree")
+        g = cfg_of(at)
+        val = [nd for nd in g.nodes if any(call_name(c) == "validate_rooting" for c in node_calls(nd))]
+        if len(val) != 1:
+            raise AnalysisError("R06.11: validate_rooting call in TreeArray.add_tree not recognised")
+        acc = [nd for nd in g.nodes if any(call_name(c) in ("count_splits_on_tree",) for c in node_calls(nd))]
+        acc += [nd for w in writes_in(at.node) if w.kind == "mutcall" and w.base is not None and norm(w.base) == "self" for nd in g.nodes_of_stmt(w.stmt)]
+        if not acc:
+            raise AnalysisError("R06.11: accumulation statements of TreeArray.add_tree not recognised")
+        for nd in acc:
+            ok = g.dominated_by(nd, lambda x: x is val[0], follow_exc=False)
+            rep.check(ok, "R06.11", at.qualname, "counted before validated: %s" % norm_stmt(nd.stmt)[:50], fn_where(at, nd.stmt), "add_tree: `%s` runs after validate_rooting" % norm_stmt(nd.stmt)[:40],
+                      "TreeArray.add_tree executes `%s` on a path that has not passed validate_rooting: a tree of the other rooting state is refused with MixedRootingError only after its splits, weight and tree count have gone into the distribution - a caller that catches the error and carries on gets frequencies that include the refused tree" % norm_stmt(nd.stmt)[:60])
+        rep.floor("R06.11", "accumulating statements in add_tree", 3, len(acc))
+
+    # ---- R06.12 summaries follow the collection under every interleaving
+    with rep.section("R06.12"):
+        rep.rule("R06.12", "per-split summaries are recomputed when the collection has grown, whatever was queried in between: the two summary tables share one staleness stamp, so neither getter nor calculator may bring that stamp up to date on its own (C05 R05.1)")
+        rep.floor("R06.12", "borrowed obligations", 2, borrow(index, rep, "C05", {"R05.1"}, "R06.12"))
+
 
 def _root_of(e):
     while isinstance(e, (ast.Attribute, ast.Subscript, ast.Call)):
